@@ -25,7 +25,8 @@ CONSTANTS N,            \* number of qubits
           WithQueries,  \* query actions enabled (they multiply the state count)
           WithMixed,    \* measurement / dephasing / reset actions enabled (stabilizer mixtures)
           HeavyLaws,    \* evaluate the quantified laws (SSA, relabelling over all permutations)
-          SlimGates,    \* only H, S, CX move the register (same reachable states, fewer transitions)
+          SlimGates,    \* only H, S and CX with control < target move the register (same reachable states,
+                        \* CX(t,c) = (H x H) CX(c,t) (H x H); fewer transitions)
           Mutant        \* "" or the name of a deliberately wrong shortcut route (model self-test)
 
 VARIABLES grp,   \* the stabilizer group
@@ -106,7 +107,7 @@ Step(G, h) == qry = NoQuery /\ grp' = G /\ hist' = Append(hist, h) /\ qry' = NoQ
 
 ActH  == \E q \in Q : qry = NoQuery /\ Step(ApplyGate(grp, "H", <<q>>), <<"H", q>>)
 ActS  == \E q \in Q : qry = NoQuery /\ Step(ApplyGate(grp, "S", <<q>>), <<"S", q>>)
-ActCX == \E c, t \in Q : c # t /\ Step(ApplyGate(grp, "CX", <<c, t>>), <<"CX", c, t>>)
+ActCX == \E c, t \in Q : c # t /\ (SlimGates => c < t) /\ Step(ApplyGate(grp, "CX", <<c, t>>), <<"CX", c, t>>)
 ActCZ == ~SlimGates /\ \E c, t \in Q : c < t /\ Step(ApplyGate(grp, "CZ", <<c, t>>), <<"CZ", c, t>>)
 Transpositions == {x \in Perms : \E i \in Q : x[i] # i /\ x[x[i]] = i /\ \A j \in Q \ {i, x[i]} : x[j] = j}
 RelabelSet == IF HeavyLaws THEN Perms ELSE Transpositions
